@@ -98,6 +98,7 @@ func checkC12(c *Ctx) error {
 		return err
 	}
 	c.exhaustive = true
+	c12Rebind(c)
 	r, err := RunTLC(TLCOpts{Module: "CallBinding", Cfg: "CallBinding.asbuilt.cfg", Workers: 4, Seed: c.Seed, Timeout: 10 * time.Minute, NoCases: true}, nil)
 	if err != nil {
 		return err
@@ -107,6 +108,49 @@ func checkC12(c *Ctx) error {
 		return fmt.Errorf("CallBinding.tla no longer distinguishes the variadic nil handling")
 	}
 	return nil
+}
+
+// c12Rebind: ONE call site reached several times in a render with its name bound to another Go function each time (a
+// loop variable, a parameter of a template function): every call goes to the function bound NOW, with that function's
+// signature deciding what is supplied automatically.
+func c12Rebind(c *Ctx) {
+	type rec struct {
+		mu    sync.Mutex
+		calls []string
+	}
+	progs := []struct{ src, want, calls string }{
+		{`<%= for (f) in fns { %><%= f(3) %>,<% } %>`, "4,6,4,", "inc(3) dbl(3,map[]) inc(3)"},
+		{`<% let ap = fn(f, x) { return f(x) } %><%= ap(inc, 1) %>|<%= ap(dbl, 1) %>|<%= ap(inc, 5) %>`, "2|2|6", "inc(1) dbl(1,map[]) inc(5)"},
+		{`<%= for (i) in [0, 1, 0] { %><%= fns[i](2) %>;<% } %>`, "3;4;3;", "inc(2) dbl(2,map[]) inc(2)"},
+		{`<% let g = inc %><%= g(1) %><% g = dbl %><%= g(1) %><% g = inc %><%= g(1) %>`, "222", "inc(1) dbl(1,map[]) inc(1)"},
+	}
+	for _, p := range progs {
+		r := &rec{}
+		inc := func(n int) int {
+			r.mu.Lock()
+			r.calls = append(r.calls, fmt.Sprintf("inc(%d)", n))
+			r.mu.Unlock()
+			return n + 1
+		}
+		dbl := func(n int, opts map[string]interface{}) int {
+			r.mu.Lock()
+			r.calls = append(r.calls, fmt.Sprintf("dbl(%d,%v)", n, opts))
+			r.mu.Unlock()
+			return 2 * n
+		}
+		ctx := plush.NewContext()
+		ctx.Set("inc", inc)
+		ctx.Set("dbl", dbl)
+		ctx.Set("fns", []interface{}{inc, dbl, inc})
+		c.Eval("rebind:" + p.src)
+		c.Rule("rebind")
+		o := guarded(5*time.Second, func() (string, error) { return plush.Render(p.src, ctx) })
+		got := strings.Join(r.calls, " ")
+		if o.Panic != "" || o.Hang || o.IsErr || o.Out != p.want || got != p.calls {
+			c.Fail("rebind", fmt.Sprintf("%s: rendered (%q, %v) with calls [%s]; every call goes to the function its name is bound to at that moment: expected %q with calls [%s]", p.src, o.Out, o.Err, got, p.want, p.calls),
+				map[string]interface{}{"gen": "c12Rebind", "source_text": p.src, "observed": o, "calls": got})
+		}
+	}
 }
 
 var cbMapMu sync.Mutex
